@@ -1318,7 +1318,11 @@ func (fl *File) Readdir(count int) ([]os.FileInfo, error) {
 	c, flt := fl.v.begin(fl.call("Readdir"))
 	var out []os.FileInfo
 	var err error
-	if flt != nil {
+	partial := -1
+	if flt != nil && flt.Kind == "short" {
+		// the directory read breaks off half-way: a prefix of the entries AND an error (os.File.Readdir does that)
+		partial = flt.Short
+	} else if flt != nil {
 		if e := faultErr(flt); e != nil {
 			err = pe("readdir", fl.name, e)
 		}
@@ -1338,9 +1342,14 @@ func (fl *File) Readdir(count int) ([]os.FileInfo, error) {
 			if count > 0 && len(all) > count {
 				all = all[:count]
 			}
+			if partial >= 0 && partial < len(all) {
+				all = all[:partial]
+				err = pe("readdir", fl.name, syscall.EIO)
+				simrt.Fault("fs.partial_readdir")
+			}
 			fl.dirPos += len(all)
 			out = all
-			if count > 0 && len(out) == 0 {
+			if count > 0 && len(out) == 0 && err == nil {
 				err = io.EOF
 			}
 		}
